@@ -12,7 +12,7 @@ RULE = ('load graphs over files main.scss (entry), a.scss and d/b.scss: every fi
         'matching forms from inside d/), compiled through the in-memory loader which resolves . and .. like a file system.  '
         'quick: ALL graphs with out-degree <= 1 per file (37^3 = 50 653), the same space again over main.scss, the directory index '
         'k/_index.scss and k/s/y.scss with the spellings `k` / `..`, `k/.` / `../.` and `k/_index`, then random graphs over 2..6 files with out-degree '
-        '<= 2, more placements (partials, d/e/) and more spellings (explicit extension, underscore, ./d/e/../../x).  thorough: '
+        '<= 2, more placements (partials, d/e/, directory indexes, plain .css leaves that are loaded several times) and more spellings (explicit extension, underscore, ./d/e/../../x).  thorough: '
         'additionally ALL graphs with out-degree <= 2 for the entry and <= 1 for the others (1 824 877).  Distinct by the graph; '
         'every graph with at least one edge is non-trivial.  Oracle: a cycle reachable from the entry => the result is a loop '
         'error (Error::ImportLoop or a message saying the file/module is already being loaded); no reachable cycle => the run '
@@ -162,7 +162,8 @@ def worker(ctx):
         gs = []
         for _ in range(200):
             n = ctx.rng.choice([2, 3, 3, 4, 4, 5, 6])
-            g = lg.random_graph(ctx.rng, n, max_out=2, acyclic=ctx.rng.random() < 0.5)
+            g = lg.random_graph(ctx.rng, n, max_out=2, acyclic=ctx.rng.random() < 0.5,
+                                placements=(lg.PLACEMENTS[:5] + lg.CSS_PLACEMENTS) if ctx.rng.random() < 0.4 else None)
             gs.append(g)
         if first:
             ctx.sample({'graph': gs[0], 'files': lg.render(gs[0])})
